@@ -776,15 +776,11 @@ func (c *control) dirEval(colon, at bool, params []any) {
 }
 
 func (c *control) dirProc(colon, at bool, params []any) {
-	var ctrl []byte
-	if 0 <= c.argPos && c.argPos < len(c.args) {
-		ss, ok := c.args[c.argPos].(slip.String)
-		if !ok {
-			slip.ErrorPanic(c.scope, 0, "recursive processing directive expected a control string at %d of %q", c.pos, c.str)
-		}
-		ctrl = []byte(ss)
-		c.argPos++
+	ss, ok := c.nextArg().(slip.String)
+	if !ok {
+		slip.ErrorPanic(c.scope, 0, "recursive processing directive expected a control string at %d of %q", c.pos, c.str)
 	}
+	ctrl := []byte(ss)
 	c2 := control{
 		scope: c.scope,
 		str:   ctrl,
@@ -796,9 +792,9 @@ func (c *control) dirProc(colon, at bool, params []any) {
 		c2.argPos = c.argPos
 	} else {
 		var args slip.List
-		if 0 <= c.argPos && c.argPos < len(c.args) && c.args[c.argPos] != nil { // nil is the empty list
+		if arg := c.nextArg(); arg != nil { // nil is the empty list
 			var ok bool
-			if args, ok = c.args[c.argPos].(slip.List); !ok {
+			if args, ok = arg.(slip.List); !ok {
 				slip.ErrorPanic(c.scope, 0, "recursive processing directive expected an argument list at %d of %q", c.pos, c.str)
 			}
 		}
@@ -808,8 +804,6 @@ func (c *control) dirProc(colon, at bool, params []any) {
 	c2.process()
 	if at {
 		c.argPos = c2.argPos
-	} else {
-		c.argPos++
 	}
 	c.out = append(c.out, c2.out...)
 }
@@ -1527,9 +1521,7 @@ func (c *control) dirCond(colon, at bool, params []any) {
 	}
 	var arg slip.Object
 	if colon || at || n < 0 {
-		if c.argPos < len(c.args) {
-			arg = c.nextArg()
-		}
+		arg = c.nextArg()
 	}
 	strs, def, pos := c.scanCond(c.str, c.pos)
 	switch {
@@ -1691,11 +1683,7 @@ func (c *control) dirIter(colon, at bool, params []any) {
 	case colon:
 		// The iterator argument must be a list of lists with the each list
 		// element being consumed by one iteration.
-		var argList slip.List
-		if 0 <= c.argPos && c.argPos < len(c.args) {
-			argList = c.objAsList(c.args[c.argPos], "iteration directive argument")
-			c.argPos++
-		}
+		argList := c.objAsList(c.nextArg(), "iteration directive argument")
 		if atLeastOnce && len(argList) == 0 {
 			argList = slip.List{slip.List{}}
 		}
@@ -1733,11 +1721,7 @@ func (c *control) dirIter(colon, at bool, params []any) {
 	default:
 		// The iterator argument must be a list that is consumed progressively
 		// for each iteration.
-		c2.args = nil
-		if 0 <= c.argPos && c.argPos < len(c.args) {
-			c2.args = c.objAsList(c.args[c.argPos], "iteration directive argument")
-			c.argPos++
-		}
+		c2.args = c.objAsList(c.nextArg(), "iteration directive argument")
 		c2.argPos = 0
 		for ; 0 < n; n-- {
 			if (len(c2.args) <= c2.argPos && !atLeastOnce) || c2.stop {
